@@ -424,15 +424,21 @@ def run(tier, seed):
         traces.append(t)
     # canaries: corrupted recordings must be rejected by the trace specification
     can = []
-    base = next(t for t in traces if len(t["steps"]) > 4 and not t["final"]["raised"] and t["cfg"]["lgrho"] < -200 and not any(t["cfg"]["zero"]))
+    # canaries are synthetic (a broken library must not be able to take them away): an all-good trace, then one field corrupted each
+    base = dict(cfg=dict(n=8, max_iter=6, max_tri=6, n_tri=0, by_size=False, nan=False, ncols=1, lgtol=-6644, lgfloor=-26575, lgrho=-1000, zero=[False], dt="f64", all_conv0=False),
+                steps=[dict(err=[-1000 * j], res=[-1000 * j], changed=[j > 0], warned=j < 6, meanres=-1000 * j, it=j) for j in range(0, 7)],
+                final=dict(raised=False, warned=True, iters=6, meanres=-6000, tside=0, tsym=True, ritz=True, quad=NA, lanczos=NA, zero_ok=True, scale=NA, precond=NA,
+                           obs=[[False, False]] * 6))
+    base["steps"][6]["warned"] = True
+    c0 = json.loads(json.dumps(base)); c0["tid"] = 900000
     c1 = json.loads(json.dumps(base)); c1["tid"] = 900001; c1["steps"][2]["err"][0] = c1["steps"][1]["err"][0] + 500
     c1["steps"][2]["res"][0] = max(c1["steps"][2]["res"][0], c1["cfg"]["lgfloor"] + 10); c1["steps"][1]["res"][0] = max(c1["steps"][1]["res"][0], c1["cfg"]["lgfloor"] + 10)
     c2 = json.loads(json.dumps(base)); c2["tid"] = 900002; c2["final"]["warned"] = False; c2["final"]["meanres"] = c2["cfg"]["lgtol"] + 3000
     can = [c1, c2]
-    tr, verdicts = validate(traces + can, tier)
+    tr, verdicts = validate(traces + can + [c0], tier)
     res.add_tlc("Trace_C08", tr)
-    if not verdicts.get(900001, {}).get("fails") or not verdicts.get(900002, {}).get("fails"):
-        raise core.MachineryError("canary traces not rejected by Trace_C08: %s" % [verdicts.get(900001), verdicts.get(900002)])
+    if verdicts.get(900000, {}).get("fails") != [] or not verdicts.get(900001, {}).get("fails") or not verdicts.get(900002, {}).get("fails"):
+        raise core.MachineryError("canary traces: the good one must be accepted, the corrupted ones rejected by Trace_C08: %s" % [verdicts.get(k) for k in (900000, 900001, 900002)])
     drift = 0
     for sc, t in zip(scs, recs):
         key = "%s|n=%d|%s|%s" % (sc["precond"], sc["n"], sc["dt"], "tri" if sc["n_tri"] else "solve")
